@@ -73,7 +73,33 @@ class Ledger:
             self._seen.add((rule, "ok"))
             self.samples.append({"rule": rule, "instance": str(instance), "loc": loc, "status": "discharged", "detail": _norm_text(detail)[:300]})
 
+    @staticmethod
+    def _opaque_computation(detail: str) -> bool:
+        """Does the text of a would-be refutation mention the result of a computation the interpreter did not follow?
+        `call:m.end#2`, `call:fh.tell#1`, `call:self._index.get#3` are modelled symbols (methods of non-repository objects,
+        reads of program state); `call:list#4`, `call:takewhile#2`, `call:self._helper#1`, `Unknown(...)` are not."""
+        import re as _re
+
+        if "Unknown(" in detail or "iter@" in detail:
+            return True
+        for name in _re.findall(r"call:([A-Za-z_][\w\.]*)#\d+", detail):
+            parts = name.split(".")
+            if len(parts) == 1:
+                return True  # a bare function: builtin / itertools / module-level helper that was not followed
+            if parts[-1] in Ledger.REPO_FUNC_NAMES:
+                return True  # a method of the repository that was not followed
+        return False
+
+    REPO_FUNC_NAMES: set = set()
+
     def fail(self, rule, construct, detail, loc="", witness=None, path=None):
+        if self._opaque_computation(detail):
+            # the values compared involve the result of a computation the interpreter does not model (an itertools call, a
+            # generator helper, ...): a difference between such forms proves nothing.  Reads of mutable program state
+            # (`self.<dict>.get(...)`) are different: their value really can be anything, so a mismatch stands.
+            from .model import AnalysisError
+
+            raise AnalysisError(f"{self.prop}.{rule} {construct}: compared values depend on an un-modelled construct ({detail[:160]})")
         f = Finding(self.prop, rule, str(construct), detail, loc, witness, path)
         if f.key() in {x.key() for x in self.findings}:
             return f
